@@ -51,7 +51,73 @@ def extra(report, env):
             'ways), seeded millisecond date-times (round trip within 0.5 ms)' % last.date().isoformat(), cases, fails, kind='date', exhaustive=False)
 
 
+    consumers(report, env, rng)
+
+
+def consumers(report, env, rng):
+    """ C13's last sentence end to end: +, -, DATEVALUE, N, DAYS and the six comparison operators see the serial of the statement """
+    from pyvc import e2e
+    base = datetime.datetime(1899, 12, 30)
+    p = e2e.new_parser()
+    cases = 0
+    fails = []
+
+    def serial(d):
+        return (d - base).days + (d - datetime.datetime(d.year, d.month, d.day)).total_seconds() / 86400.0
+
+    def note(text, binds, detail):
+        if len(fails) < 5:
+            fails.append({'formula': text, 'bindings': binds, 'detail': detail})
+    for _ in range(150 if env['tier'] == 'quick' else 3000):
+        # time of day a multiple of 1/8 day: its serial is an exact float, comparisons with it are exact
+        d = datetime.datetime(1900, 3, 1) + datetime.timedelta(days=rng.randrange(0, 2957000), hours=rng.choice([0, 0, 3, 6, 12, 18, 21]))
+        e = d + datetime.timedelta(days=rng.randrange(0, 400), hours=rng.choice([0, 6, 12]))
+        s, se = serial(d), serial(e)
+        binds = {'d': d.isoformat(), 'e': e.isoformat()}
+        p.set_variable('d', d)
+        p.set_variable('e', e)
+        n = rng.choice([0, 1, 30, 365, 0.25, 1.5, rng.randrange(0, 1000)])
+        for text, want in (('d+%s' % n, d + datetime.timedelta(days=n)), ('%s+d' % n, d + datetime.timedelta(days=n)), ('e-%s' % n, e - datetime.timedelta(days=n)),
+                           ('e-d', se - s), ('N(d)', s), ('DAYS(e,d)', se - s), ('DATEVALUE("%s")' % d.date().isoformat(), float(int(s)))):
+            cases += 1
+            r = p.parse(text)
+            got = r['result']
+            if isinstance(want, datetime.datetime):
+                ok = isinstance(got, datetime.datetime) and abs((got - want).total_seconds()) < 0.001
+            else:
+                ok = r['error'] is None and isinstance(got, (int, float)) and not isinstance(got, bool) and abs(got - want) < 1e-6
+            if not ok:
+                note(text, binds, 'expected %r got %r' % (want, r))
+        # numbers around the serial, as integer and as float, on either side of each comparison operator
+        ks = [int(s), int(s) + 1, int(s) - 1, float(int(s)), s, s + 0.125, s - 0.125]
+        for k in ks:
+            p.set_variable('k', k)
+            for op, f in (('<', lambda a, b: a < b), ('>', lambda a, b: a > b), ('=', lambda a, b: a == b), ('<>', lambda a, b: a != b),
+                          ('<=', lambda a, b: a <= b), ('>=', lambda a, b: a >= b)):
+                for text, want in (('k%sd' % op, f(k, s)), ('d%sk' % op, f(s, k)), ('%r%sd' % (k, op), f(k, s))):
+                    cases += 1
+                    r = p.parse(text)
+                    if r['result'] is not want:
+                        note(text, dict(binds, k=repr(k)), 'the serial of d is %r: expected %r got %r' % (s, want, r))
+        for op, f in (('<', lambda a, b: a < b), ('=', lambda a, b: a == b), ('>=', lambda a, b: a >= b)):
+            cases += 1
+            r = p.parse('d%se' % op)
+            if r['result'] is not f(s, se):
+                note('d%se' % op, binds, 'expected %r got %r' % (f(s, se), r))
+    bounded(report, 'C13.consumers', 'seeded date-times from 1 March 1900 on (time of day in eighths of a day) through Parser.parse: date +/- n, date - date, '
+            'N, DAYS, DATEVALUE against the serial of the statement; 7 numbers around the serial (int and float) x 6 comparison operators x '
+            '{variable left, variable right, literal left}; date against date', cases, fails)
+
+
 def replay(rp):
+    if rp.get('formula'):
+        from pyvc import e2e
+        import datetime as _dt
+        p = e2e.new_parser()
+        for k, v in (rp.get('bindings') or {}).items():
+            p.set_variable(k, _dt.datetime.fromisoformat(v) if k in ('d', 'e') else eval(v))
+        print('parse(%r) with %r -> %r ; %s' % (rp['formula'], rp.get('bindings'), p.parse(rp['formula']), rp['detail']))
+        return 1
     from pyvc import native
     import datetime
     ser = native.real_function('hotxlfp.formulas.utils:serialize_date')
